@@ -957,7 +957,7 @@ func positiveReturn(fn *ssa.Function, env *Env, ret *ssa.Return) bool {
 }
 
 func init() {
-	c02 := []Rule{{"O1", ruleO1}, {"O2b", ruleO2b}, {"O4", ruleO4}, {"O6", ruleO6}, {"O6r", ruleO6r}, {"O3", ruleO3}, {"E1w", ruleE1w}, {"FL1", ruleFL1}, {"O3c", ruleO3c}, {"T1", ruleT1}, {"O5s", ruleScanStep}}
+	c02 := []Rule{{"O1", ruleO1}, {"O2b", ruleO2b}, {"O4", ruleO4}, {"O6", ruleO6}, {"O6r", ruleO6r}, {"O3", ruleO3}, {"E1w", ruleE1w}, {"FL1", ruleFL1}, {"O3c", ruleO3c}, {"T1", ruleT1}, {"O5s", ruleScanStep}, {"O5r", ruleO5r}, {"Y1", ruleLayoutItemHeader}, {"Y6", ruleLayoutItemRecord}}
 	register(&Property{
 		ID:           "C02",
 		Level:        "other",
@@ -972,7 +972,7 @@ func init() {
 	register(&Property{
 		ID:           "C03",
 		Level:        "other",
-		Rules:        []Rule{{"O1", ruleO1}, {"O2", ruleO2}, {"O2b", ruleO2b}, {"O3", ruleO3}, {"O4", ruleO4}, {"O5", ruleO5}, {"O5s", ruleScanStep}, {"T1", ruleT1}, {"Y4", ruleLayoutRoot}, {"A-off", ruleAOff}, {"A-mono", ruleAMono}, {"O3c", ruleO3c}},
+		Rules:        []Rule{{"O1", ruleO1}, {"O2", ruleO2}, {"O2b", ruleO2b}, {"O3", ruleO3}, {"O4", ruleO4}, {"O5", ruleO5}, {"O5s", ruleScanStep}, {"T1", ruleT1}, {"Y4", ruleLayoutRoot}, {"A-off", ruleAOff}, {"A-mono", ruleAMono}, {"O3c", ruleO3c}, {"O5r", ruleO5r}},
 		Explanation:  "Decides the structural part of crash atomicity: the root record is the single commit point (O1 last, O2 one straight-line WriteAt of a fully assembled buffer), data is written before it in dependency order (O4), Store.size is advanced only on the success arm of every write and to exactly offset+length (O3), and on open the reader validates every framing field the writer emits before installing the decoded collections (O5: MagicEnd x2, MagicBeg x2, version, inner length = trailer length, offset >= 0, offset < size - minimal record, and A9 length == size - offset), each test's failing arm leading only to rejection or re-test. NOT decided: byte-granular torn writes and adversarial junk imitating a complete self-consistent root record (the README records that trade-off), nor recovery followed by continued use.",
 		ControlSrc:   controlC02,
 		ControlEdits: []ControlEdit{{"NewStoreEx", "if zzCtlNever { (*Store)(nil).zzCtlAcceptAnyway(nil, 0) }"}},
